@@ -156,7 +156,12 @@ def build_response(r: Dict[str, Any], side: str, log: Optional[List[str]] = None
     elif kind == "redirect":
         if status is not None:
             kw["status_code"] = status
-        resp = M.RedirectResponse(r["url"], **kw)
+        target = r["url"]
+        if r.get("url_object"):
+            from baize.datastructures import URL
+
+            target = URL(target)
+        resp = M.RedirectResponse(target, **kw)
     elif kind == "stream":
         if status is not None:
             kw["status_code"] = status
